@@ -685,6 +685,13 @@ func (p *Parser) parseTernaryExpression(condition ast.Expression) ast.Expression
 		return nil
 	}
 
+	// "a ? b : c ? d : e" is a ternary nested in the false-arm of
+	// another, however it might be grouped.
+	if p.peekTokenIs(token.QUESTION) {
+		p.errors = append(p.errors, fmt.Sprintf("nested ternary expressions are illegal around %s", p.curToken.Position()))
+		return nil
+	}
+
 	return expression
 }
 
